@@ -25,6 +25,10 @@ claimed = {
    text="Proof (SMT, ghost lock set): in mutexRuntime.Eval the block (Children[1].Eval) is entered only while this thread holds the named mutex or the owner table - read under the table lock - says this thread already owns it (re-entrancy takes no lock); ownership is registered only while holding the mutex and cleared in the deferred release before the mutex is unlocked; the deferred release runs on every return path of Eval (defer model) and the lock set at every return equals the one at entry (always released, nested activation releases nothing); every access to the mutex and owner tables holds the table lock, which is never held while the block runs; table entries are created once, as fresh objects; structurally, only the mutex runtime writes the two tables; NewThreadID is >= 1 and strictly increasing under its lock.",
    note="Assumed: sync.Mutex excludes other threads; distinct non-zero thread ids per thread; the named mutex differs from the table lock (justified by two checked obligations, see contract file); panic exits are excluded (C06). Not decided: the cross-thread owner-table invariant itself is argued from the per-thread obligations, not mechanised.",
    ref="DESIGN.md §8 C12"),
+ "C09": dict(
+   text="Proof obligations discharged on the current tree for every function of the pool: (lock, SMT over a ghost lock set) every access to queue, workerMap, workerIdleMap, workerKill, workerIDCount and the regulation flags holds the declared lock, the five locks are pairwise distinct (type invariant established by the constructor), no lock is taken twice, every return and every loop iteration leaves the lock set as found; (cond) every Signal/Broadcast of newTaskCond is issued while holding its lock (SMT), the idle task's Wait is reached only through a branch that depends on a test of both parts of the predicate (task queued / worker asked to exit) made in the same critical section, and after every write that can make the predicate true (queue.Push, workerKill) every path to a return signals the condition (structural path checks). By the discipline argument no wake-up is lost under any schedule: a queued task is started without any further call. Counterexamples are replayed by a single-worker stress schedule and by the race detector.",
+   note="Assumed: soundness of the wait/signal discipline and of lock-invariant reasoning (argued in DESIGN §7.4, not mechanised); sync.Cond.Signal wakes a waiter if there is one; callees are lock-balanced. Not decided: that each popped task is run exactly once (follows from Pop under queueLock, not yet under contract), convergence of the polling loops in WaitAll/JoinAll/SetWorkerCount (liveness under fairness).",
+   ref="DESIGN.md §8 C09"),
 }
 NA_DEFAULT = "not yet claimed: contracts for this property are still being built (DESIGN.md §8); no other technique is substituted"
 na = {}
